@@ -26,21 +26,35 @@
 (***************************************************************************)
 EXTENDS Integers, Sequences, FiniteSets, TLC, Json
 
-CONSTANTS Series, Times, Vals, Types, Apps,
+CONSTANTS Series, TimesRaw, TOff, Vals, Types, Apps,
           R,          \* head chunk range = minimum block duration (even, > 0)
           W,          \* out-of-order time window (0 = disabled)
           OOOCap,     \* OutOfOrderCapMax
           Acts,       \* names of the enabled actions
           Apis,       \* subset of {"v1","v2"}
           Rej,        \* subset of BOOLEAN: DiscardOutOfOrder / RejectOutOfOrder option values
-          DelRanges,  \* set of <<lo, hi>> delete ranges
+          DelLo, DelHi,  \* delete ranges are <<lo, hi>> with lo \in DelLo, hi \in DelHi, lo <= hi (raw times)
           MaxPend,    \* max samples pending per appender
+          AllowKF,     \* ids of known findings whose *trigger* may be generated.  A step that triggers a finding not
+                       \*   in AllowKF is disabled; once triggered the id is kept in kfset and the content invariant
+                       \*   is waived for that history (the harness reports later mismatches under that id):
+                       \*   "KF-C20-1" Delete over out-of-order head samples (Head.Delete clamps to the in-order range,
+                       \*              OOOCompactionHead carries no tombstones)
+                       \*   "KF-C20-2" Delete of a sample that is only in blocks but would be re-appended by WAL replay
+                       \*   "KF-C20-3" a Commit that stores an out-of-order sample inside an older head tombstone interval
+                       \*   "KF-C01-2" a Commit whose WAL order differs from its commit order (a float staleness marker
+                       \*              deferred behind a later sample of the same series): a restart replays the marker
+          KFInitOpts,  \* TRUE: model the code's deviation KF-C02-1 (SetOptions on an initAppender is dropped)
+          KFV1Hist,    \* TRUE: model the code's deviation KF-C02-2 (v1 AppendHistogram ignores DiscardOutOfOrder)
+          Balanced,    \* TRUE (simulation): first draw the kind of the next action uniformly, then the action
           MaxOps, EmitMode
 
 VARIABLES
   ino,      \* [Series -> Seq(Sample)]  in-order samples in the head, ascending t
   ooh,      \* [Series -> Seq(Sample)]  current out-of-order head chunk, ascending t
   oom,      \* [Series -> SUBSET Sample] samples in m-mapped out-of-order chunks
+  htomb,    \* [Series -> SUBSET (Int \X Int)] head tombstone intervals as Head.Delete records them (clamped to the
+            \*   head's and the series' in-order range); only used to recognise the trigger of KF-C20-3
   hdel,     \* [Series -> SUBSET Times] timestamps of in-order head samples covered by a head tombstone
   wino,     \* [Series -> Seq(Sample)] what a WAL replay would append in order: the running-maximum
             \*   subsequence of every sample logged for the series (log() writes all samples accepted at
@@ -50,13 +64,17 @@ VARIABLES
   blkMax,   \* max MaxTime over blocks that are not from out-of-order compaction (NegInf if none)
   oooSeen,  \* db.oooWasEnabled
   app,      \* [Apps -> appender record]
+  kfset,    \* ghost: ids of known findings triggered so far in this history
   stored,   \* ghost: [Series -> SUBSET Sample] every sample stored by a commit and not deleted since
+  kindv,    \* "any" or the action kind drawn for the next step (simulation balancing only)
   nops, hist
 
-hvars == <<ino, ooh, oom, hdel, wino, hInit, hMin, hMax, minValid>>
-vars  == <<ino, ooh, oom, hdel, wino, hInit, hMin, hMax, minValid, blk, blkMax, oooSeen, app, stored, nops, hist>>
-View  == <<ino, ooh, oom, hdel, wino, hInit, hMin, hMax, minValid, blk, blkMax, oooSeen, app, stored>>
+hvars == <<ino, ooh, oom, hdel, htomb, wino, hInit, hMin, hMax, minValid>>
+vars  == <<ino, ooh, oom, hdel, htomb, wino, hInit, hMin, hMax, minValid, blk, blkMax, oooSeen, app, stored, kfset, kindv, nops, hist>>
+View  == <<ino, ooh, oom, hdel, htomb, wino, hInit, hMin, hMax, minValid, blk, blkMax, oooSeen, app, stored, kfset, kindv>>
 
+\* model times are TimesRaw shifted down by TOff (cfg files cannot write negative numbers)
+Times == {x - TOff : x \in TimesRaw}
 PosInf == 1000
 NegInf == -1000
 Max2(a, b) == IF a >= b THEN a ELSE b
@@ -67,7 +85,7 @@ Last(q) == q[Len(q)]
 Range(q) == {q[i] : i \in 1..Len(q)}
 
 Sample == [t : Times, v : Vals \cup {0}, ty : Types]
-NoApp == [st |-> "closed", api |-> "v1", rej |-> FALSE, mv |-> 0, hm |-> 0,
+NoApp == [st |-> "closed", api |-> "v1", rej |-> FALSE, ini |-> FALSE, mv |-> 0, hm |-> 0,
           pend |-> <<>>, types |-> [s \in Series |-> "none"], nb |-> 0]
 
 \* floor division / Go's truncating division
@@ -120,11 +138,13 @@ ExpAll(st) == [s \in Series |-> ExpList(st, s)]
 -----------------------------------------------------------------------------
 Init ==
   /\ ino = [s \in Series |-> <<>>] /\ ooh = [s \in Series |-> <<>>] /\ oom = [s \in Series |-> {}]
-  /\ hdel = [s \in Series |-> {}] /\ wino = [s \in Series |-> <<>>]
+  /\ hdel = [s \in Series |-> {}] /\ htomb = [s \in Series |-> {}] /\ wino = [s \in Series |-> <<>>]
   /\ hInit = FALSE /\ hMin = PosInf /\ hMax = NegInf /\ minValid = NegInf
   /\ blk = [s \in Series |-> {}] /\ blkMax = NegInf /\ oooSeen = (W > 0)
   /\ app = [a \in Apps |-> NoApp]
   /\ stored = [s \in Series |-> {}]
+  /\ kfset = {}
+  /\ kindv = "any"
   /\ nops = 0
   /\ hist = <<[a |-> "Init", R |-> R, W |-> W, cap |-> OOOCap]>>
   /\ TLCSet(1, {})
@@ -139,9 +159,9 @@ NewAppender(a, api, rej) ==
   /\ app[a].st = "closed"
   /\ app' = [app EXCEPT ![a] =
        IF hInit THEN [NoApp EXCEPT !.st = "open", !.api = api, !.rej = rej, !.mv = AppMinValid, !.hm = hMax]
-       ELSE [NoApp EXCEPT !.st = "init", !.api = api, !.rej = rej]]
-  /\ UNCHANGED <<hvars, blk, blkMax, oooSeen, stored>>
-  /\ Step([a |-> "NewAppender", app |-> a, api |-> api, rej |-> rej])
+       ELSE [NoApp EXCEPT !.st = "init", !.api = api, !.rej = rej, !.ini = TRUE]]
+  /\ UNCHANGED <<hvars, blk, blkMax, oooSeen, stored, kfset>>
+  /\ Step([a |-> "NewAppender", app |-> a, api |-> api, rej |-> rej, init |-> ~hInit])
 
 \* getCurrentBatch: returns <<new batch count, new typesInBatch>> for a sample of type ty on series s
 Batch(ap, s, ty) ==
@@ -170,9 +190,18 @@ AppendSample(a, s, t, v, ty) ==
          ty1  == IF ty = "f" /\ v = 0 /\ ap0.types[s] \in {"h", "fh"} THEN ap0.types[s] ELSE ty
          fast == W = 0 /\ t < ap0.mv
          res  == Appendable(ino[s], t, v, ty1, ap0.hm, ap0.mv)
-         cls  == IF fast THEN "oob"
-                 ELSE IF ap0.api = "v1" THEN (IF res[2] = "ok" /\ res[1] /\ ap0.rej THEN "ooo" ELSE IF res[2] = "dup" THEN "dup" ELSE res[2])
-                 ELSE (IF res[1] /\ ap0.rej THEN "ooo" ELSE res[2])
+         \* what the documented rules give (storage.AppendOptions.DiscardOutOfOrder / AOptions.RejectOutOfOrder:
+         \* "an OOO append MUST be rejected with ErrOutOfOrderSample")
+         Cls(rej) == IF fast THEN "oob"
+                     ELSE IF ap0.api = "v1" THEN (IF res[2] = "ok" /\ res[1] /\ rej THEN "ooo" ELSE res[2])
+                     ELSE (IF res[1] /\ rej THEN "ooo" ELSE res[2])
+         pcls == Cls(ap0.rej)
+         \* named deviations of the code (known findings): the option is lost on an initAppender (v1), and
+         \* v1 AppendHistogram never looks at it
+         effRej == /\ ap0.rej
+                   /\ ~(KFInitOpts /\ ap0.api = "v1" /\ ap0.ini)
+                   /\ ~(KFV1Hist /\ ap0.api = "v1" /\ ty1 # "f")
+         cls  == Cls(effRej)
          bt   == Batch(ap0, s, ty1)
          ap1  == IF cls = "ok"
                  THEN [ap0 EXCEPT !.pend = Append(@, [s |-> s, t |-> t, v |-> v, ty |-> ty1, b |-> bt[1]]),
@@ -181,8 +210,9 @@ AppendSample(a, s, t, v, ty) ==
      IN /\ app' = [app EXCEPT ![a] = ap1]
         /\ hInit' = (hInit \/ init)
         /\ hMax' = hMax1 /\ hMin' = hMin1
-        /\ UNCHANGED <<ino, ooh, oom, hdel, wino, minValid, blk, blkMax, oooSeen, stored>>
-        /\ Step([a |-> "Append", app |-> a, s |-> s, t |-> t, v |-> v, ty |-> ty, ret |-> cls,
+        /\ UNCHANGED <<ino, ooh, oom, hdel, htomb, wino, minValid, blk, blkMax, oooSeen, stored, kfset>>
+        /\ Step([a |-> "Append", app |-> a, s |-> s, t |-> t, v |-> v, ty |-> ty, ret |-> cls, pret |-> pcls,
+                 kf |-> IF cls = pcls THEN "" ELSE IF KFInitOpts /\ ap0.api = "v1" /\ ap0.ini THEN "KF-C02-1" ELSE "KF-C02-2",
                  ooo |-> (~fast /\ res[1]), mv |-> ap0.mv, hm |-> ap0.hm])
 
 -----------------------------------------------------------------------------
@@ -258,17 +288,30 @@ Commit(a) ==
          st1 == IF ap.st = "init" THEN st0 ELSE CommitFold(logged, st0, ap.hm, ap.mv)
      IN /\ ino' = st1.ino /\ ooh' = st1.ooh /\ oom' = st1.oom /\ stored' = st1.stored
         /\ wino' = IF ap.st = "init" THEN wino ELSE LogFold(logged, wino)
-        /\ hdel' = hdel
+        /\ hdel' = hdel /\ htomb' = htomb
         /\ hMin' = Min2(hMin, st1.imin) /\ hMax' = Max2(hMax, st1.imax)      \* updateMinMaxTime
         /\ app' = [app EXCEPT ![a] = NoApp]
         /\ UNCHANGED <<hInit, minValid, blk, blkMax, oooSeen>>
-        /\ Step([a |-> "Commit", app |-> a, exp |-> ExpAll(st1.stored)])
+        \* would a WAL replay rebuild a different head than the one this commit leaves?
+        /\ LET w1 == IF ap.st = "init" THEN wino ELSE LogFold(logged, wino)
+               Key(X) == {<<x.t, Norm(x)>> : x \in {y \in X : y.t >= blkMax}}
+               diff == \E s \in Series :
+                          LET O == Range(st1.ooh[s]) \cup st1.oom[s] IN
+                          Key(Range(w1[s]) \cup O) # Key(Range(st1.ino[s]) \cup O)
+               \* an out-of-order sample stored under an older head tombstone of its series
+               hid == \E s \in Series : \E x \in (Range(st1.ooh[s]) \cup st1.oom[s]) \ (Range(ooh[s]) \cup oom[s]) :
+                         \E iv \in htomb[s] : x.t >= iv[1] /\ x.t <= iv[2]
+               ks == (IF diff THEN {"KF-C01-2"} ELSE {}) \cup (IF hid THEN {"KF-C20-3"} ELSE {})
+           IN /\ ks \subseteq AllowKF
+              /\ kfset' = kfset \cup ks
+              /\ Step([a |-> "Commit", app |-> a, exp |-> ExpAll(st1.stored),
+                       kf |-> IF hid THEN "KF-C20-3" ELSE IF diff THEN "KF-C01-2" ELSE ""])
 
 Rollback(a) ==
   /\ "Rollback" \in Acts
   /\ app[a].st \in {"init", "open"}
   /\ app' = [app EXCEPT ![a] = NoApp]
-  /\ UNCHANGED <<hvars, blk, blkMax, oooSeen, stored>>
+  /\ UNCHANGED <<hvars, blk, blkMax, oooSeen, stored, kfset>>
   /\ Step([a |-> "Rollback", app |-> a, exp |-> ExpAll(stored)])
 
 -----------------------------------------------------------------------------
@@ -277,17 +320,35 @@ InRange(x, lo, hi) == x.t >= lo /\ x.t <= hi
 
 (* DB.Delete: reference semantics = every sample of the selected series inside [lo,hi] disappears
    from head, out-of-order chunks and blocks alike. *)
+OOOInRange(S, lo, hi) == \E s \in S : \E x \in Range(ooh[s]) \cup oom[s] : InRange(x, lo, hi)
+
+\* a sample that is no longer in the head in-order data but that a WAL replay would append again (it was stored
+\* out-of-order and logged, or its series was truncated): deleting it only writes block tombstones
+WalGhostInRange(S, lo, hi) == \E s \in S : \E x \in Range(wino[s]) :
+                                 InRange(x, lo, hi) /\ x.t >= blkMax /\ x \notin Range(ino[s])
+DeleteKF(S, lo, hi) == (IF OOOInRange(S, lo, hi) THEN {"KF-C20-1"} ELSE {}) \cup
+                       (IF WalGhostInRange(S, lo, hi) THEN {"KF-C20-2"} ELSE {})
+
 Delete(S, lo, hi) ==
   /\ "Delete" \in Acts
+  /\ DeleteKF(S, lo, hi) \subseteq AllowKF
+  /\ kfset' = kfset \cup DeleteKF(S, lo, hi)
   /\ LET keep(X) == {x \in X : ~InRange(x, lo, hi)} IN
      /\ hdel' = [s \in Series |-> IF s \in S THEN hdel[s] \cup {x.t : x \in {y \in Range(ino[s]) : InRange(y, lo, hi)}} ELSE hdel[s]]
      /\ UNCHANGED <<ino, wino>>
+     /\ htomb' = [s \in Series |->
+          IF s \in S /\ hInit /\ lo <= hMax /\ hi >= hMin /\ ino[s] # <<>>
+          THEN LET t0 == Max2(Max2(lo, hMin), ino[s][1].t)
+                   t1 == Min2(Min2(hi, hMax), Last(ino[s]).t)
+               IN IF t0 <= t1 THEN htomb[s] \cup {<<t0, t1>>} ELSE htomb[s]
+          ELSE htomb[s]]
      /\ ooh' = [s \in Series |-> IF s \in S THEN SelectSeq(ooh[s], LAMBDA x : ~InRange(x, lo, hi)) ELSE ooh[s]]
      /\ oom' = [s \in Series |-> IF s \in S THEN keep(oom[s]) ELSE oom[s]]
      /\ blk' = [s \in Series |-> IF s \in S THEN keep(blk[s]) ELSE blk[s]]
      /\ stored' = [s \in Series |-> IF s \in S THEN keep(stored[s]) ELSE stored[s]]
   /\ UNCHANGED <<hInit, hMin, hMax, minValid, blkMax, oooSeen, app>>
-  /\ Step([a |-> "Delete", S |-> SetToSeq(S), lo |-> lo, hi |-> hi, exp |-> ExpAll(stored')])
+  /\ Step([a |-> "Delete", S |-> SetToSeq(S), lo |-> lo, hi |-> hi, exp |-> ExpAll(stored'),
+           kf |-> IF OOOInRange(S, lo, hi) THEN "KF-C20-1" ELSE IF WalGhostInRange(S, lo, hi) THEN "KF-C20-2" ELSE ""])
 
 \* NOTE on Delete and admission: deleting the newest in-order sample of a series in the head only
 \* adds a tombstone; the chunk and s.maxTime() are unchanged.  The admission model therefore keeps a
@@ -320,7 +381,6 @@ HeadLoop(st) ==
        IN HeadLoop(AfterGC([st EXCEPT
              !.blk = [s \in Series |-> st.blk[s] \cup moved(s)],
              !.ino = [s \in Series |-> SelectSeq(st.ino[s], LAMBDA x : x.t >= maxt)],
-             !.hdel = [s \in Series |-> {t \in st.hdel[s] : t >= maxt}],
              !.hMin = Max2(st.hMin, maxt), !.minValid = maxt,
              !.hMax = Max2(st.hMax, maxt),
              \* LeveledCompactor.Write produces no block when the range holds no samples
@@ -337,11 +397,11 @@ Compact ==
   /\ LET st0 == [ino |-> ino, hdel |-> hdel, blk |-> blk, hMin |-> hMin, hMax |-> hMax, minValid |-> minValid, blkMax |-> blkMax, n |-> 0]
          st1 == HeadLoop(st0)
          doOOO == st1.n > 0 /\ oooSeen
-     IN /\ ino' = st1.ino /\ hdel' = st1.hdel /\ UNCHANGED wino /\ hMin' = st1.hMin /\ hMax' = st1.hMax /\ minValid' = st1.minValid /\ blkMax' = st1.blkMax
+     IN /\ ino' = st1.ino /\ hdel' = st1.hdel /\ UNCHANGED <<wino, htomb>> /\ hMin' = st1.hMin /\ hMax' = st1.hMax /\ minValid' = st1.minValid /\ blkMax' = st1.blkMax
         /\ blk' = IF doOOO THEN [s \in Series |-> st1.blk[s] \cup OOOAll(s)] ELSE st1.blk
         /\ ooh' = IF doOOO THEN [s \in Series |-> <<>>] ELSE ooh
         /\ oom' = IF doOOO THEN [s \in Series |-> {}] ELSE oom
-        /\ UNCHANGED <<hInit, oooSeen, app, stored>>
+        /\ UNCHANGED <<hInit, oooSeen, app, stored, kfset>>
         /\ Step([a |-> "Compact", nblocks |-> st1.n, exp |-> ExpAll(stored)])
 
 CompactOOO ==
@@ -350,18 +410,18 @@ CompactOOO ==
   /\ oooSeen
   /\ blk' = [s \in Series |-> blk[s] \cup OOOAll(s)]
   /\ ooh' = [s \in Series |-> <<>>] /\ oom' = [s \in Series |-> {}]
-  /\ UNCHANGED <<ino, hdel, wino, hInit, hMin, hMax, minValid, blkMax, oooSeen, app, stored>>
+  /\ UNCHANGED <<ino, hdel, htomb, wino, hInit, hMin, hMax, minValid, blkMax, oooSeen, app, stored, kfset>>
   /\ Step([a |-> "CompactOOO", exp |-> ExpAll(stored)])
 
 CleanTombstones ==
   /\ "CleanTombstones" \in Acts
   /\ NoOpenApp
-  /\ UNCHANGED <<hvars, blk, blkMax, oooSeen, app, stored>>
+  /\ UNCHANGED <<hvars, blk, blkMax, oooSeen, app, stored, kfset>>
   /\ Step([a |-> "CleanTombstones", exp |-> ExpAll(stored)])
 
 Mmap ==
   /\ "Mmap" \in Acts
-  /\ UNCHANGED <<hvars, blk, blkMax, oooSeen, app, stored>>
+  /\ UNCHANGED <<hvars, blk, blkMax, oooSeen, app, stored, kfset>>
   /\ Step([a |-> "Mmap", exp |-> ExpAll(stored)])
 
 (* Close + Open: blocks reloaded; head rebuilt from m-mapped chunks, WAL and WBL.  In-order data below
@@ -373,23 +433,47 @@ Reopen ==
          ino1 == [s \in Series |-> SelectSeq(wino[s], LAMBDA x : x.t >= mv)]
          its == UNION {{x.t : x \in Range(ino1[s])} : s \in Series}
      IN /\ ino' = ino1 /\ wino' = ino1
-        /\ hdel' = [s \in Series |-> {t \in hdel[s] : t >= mv}]
+        /\ htomb' = htomb
+        /\ hdel' = hdel   \* tombstone records are replayed from the WAL like the samples they cover
         /\ minValid' = mv
         /\ hInit' = (its # {})
         /\ hMin' = IF its # {} THEN SetMin(its) ELSE PosInf
         /\ hMax' = IF its # {} THEN SetMax(its) ELSE NegInf
-        /\ UNCHANGED <<ooh, oom, blk, blkMax, oooSeen, app, stored>>
+        /\ UNCHANGED <<ooh, oom, blk, blkMax, oooSeen, app, stored, kfset>>
         /\ Step([a |-> "Reopen", exp |-> ExpAll(stored)])
 
-End == nops = MaxOps /\ nops' = MaxOps + 1 /\ UNCHANGED <<hvars, blk, blkMax, oooSeen, app, stored, hist>>
+End == nops = MaxOps /\ nops' = MaxOps + 1 /\ UNCHANGED <<hvars, blk, blkMax, oooSeen, app, stored, kfset, kindv, hist>>
+
+Kinds == Acts
+KindEnabled(k) ==
+  CASE k = "NewAppender" -> \E a \in Apps : app[a].st = "closed"
+    [] k = "Append" -> \E a \in Apps : app[a].st \in {"init", "open"} /\ Len(app[a].pend) < MaxPend
+    [] k \in {"Commit", "Rollback"} -> \E a \in Apps : app[a].st \in {"init", "open"}
+    [] k = "Compact" -> NoOpenApp /\ hInit
+    [] k = "CompactOOO" -> NoOpenApp /\ oooSeen
+    [] k \in {"Reopen", "CleanTombstones"} -> NoOpenApp
+    [] OTHER -> TRUE
+
+Do(k) ==
+  \/ k = "NewAppender" /\ \E a \in Apps, api \in Apis, rj \in Rej : NewAppender(a, api, rj)
+  \/ k = "Append" /\ \E a \in Apps, s \in Series, t \in Times, v \in Vals \cup {0}, ty \in Types : AppendSample(a, s, t, v, ty)
+  \/ k = "Commit" /\ \E a \in Apps : Commit(a)
+  \/ k = "Rollback" /\ \E a \in Apps : Rollback(a)
+  \/ k = "Delete" /\ \E S \in (SUBSET Series) \ {{}}, lo \in DelLo, hi \in DelHi : lo <= hi /\ Delete(S, lo - TOff, hi - TOff)
+  \/ k = "Compact" /\ Compact
+  \/ k = "CompactOOO" /\ CompactOOO
+  \/ k = "CleanTombstones" /\ CleanTombstones
+  \/ k = "Mmap" /\ Mmap
+  \/ k = "Reopen" /\ Reopen
 
 Next ==
   \/ /\ nops < MaxOps
-     /\ \/ \E a \in Apps, api \in Apis, rj \in Rej : NewAppender(a, api, rj)
-        \/ \E a \in Apps, s \in Series, t \in Times, v \in Vals \cup {0}, ty \in Types : AppendSample(a, s, t, v, ty)
-        \/ \E a \in Apps : Commit(a) \/ Rollback(a)
-        \/ \E S \in (SUBSET Series) \ {{}}, r \in DelRanges : Delete(S, r[1], r[2])
-        \/ Compact \/ CompactOOO \/ CleanTombstones \/ Mmap \/ Reopen
+     /\ IF ~Balanced THEN (\E k \in Kinds : Do(k)) /\ UNCHANGED kindv
+        ELSE IF kindv = "any"
+             THEN /\ \E k \in Kinds : KindEnabled(k) /\ kindv' = k
+                  /\ UNCHANGED <<hvars, blk, blkMax, oooSeen, app, stored, kfset, nops, hist>>
+             ELSE \/ Do(kindv) /\ kindv' = "any"
+                  \/ kindv' = "any" /\ UNCHANGED <<hvars, blk, blkMax, oooSeen, app, stored, kfset, nops, hist>>
   \/ End
 
 Spec == Init /\ [][Next]_vars
@@ -398,7 +482,7 @@ Spec == Init /\ [][Next]_vars
 (* Properties *)
 
 \* C01: what a query returns (from the physical layout) is exactly what was committed and not deleted
-C01_Exact == \A s \in Series :
+C01_Exact == kfset # {} \/ \A s \in Series :
                /\ DOMAIN Result(s) = DOMAIN Expected(s)
                /\ \A t \in DOMAIN Result(s) : Result(s)[t] \subseteq Expected(s)[t]
 
@@ -421,12 +505,12 @@ Class == LET r == LastRec IN
                                   ino[r.s] = <<>>, IF ino[r.s] = <<>> THEN "na" ELSE
                                      (IF r.t > Last(ino[r.s]).t THEN "gt" ELSE IF r.t = Last(ino[r.s]).t THEN "eq" ELSE "lt"),
                                   app'[r.app].nb = app[r.app].nb>>
-         ELSE IF r.a = "Commit" THEN <<r.a, Len(app[r.app].pend), app[r.app].nb, stored' = stored,
+         ELSE IF r.a = "Commit" THEN <<r.a, r.kf, Len(app[r.app].pend), app[r.app].nb, stored' = stored,
                                        Cardinality(UNION {stored'[s] \ stored[s] : s \in Series}),
                                        ooh' # ooh, oom' # oom, app[r.app].st>>
          ELSE IF r.a = "Compact" THEN <<r.a, r.nblocks, ooh' # ooh \/ oom' # oom, blkMax = NegInf>>
-         ELSE IF r.a = "Delete" THEN <<r.a, stored' # stored, hdel' # hdel, ooh' # ooh \/ oom' # oom, blk' # blk>>
-         ELSE IF r.a = "Reopen" THEN <<r.a, ino' # ino, blkMax = NegInf, hInit>>
+         ELSE IF r.a = "Delete" THEN <<r.a, r.kf, stored' # stored, hdel' # hdel, ooh' # ooh \/ oom' # oom, blk' # blk>>
+         ELSE IF r.a = "Reopen" THEN <<r.a, kfset, ino' # ino, wino # ino, blkMax = NegInf, hInit>>
          ELSE <<r.a>>
 
 Emit ==
